@@ -71,6 +71,17 @@ static void c13_strings(const std::vector<std::string>& cat, int maxsites, int m
       for (int i = 0; i <= L; i++) for (char c : {'_', 'x', '1'}) { std::string s = n; s.insert(i, 1, c); add(s); }
       for (int i = 0; i < L; i++) if (n[i] == '_') { std::string s = n; s[i] = '-'; add(s); s[i] = ' '; add(s); }
       add(""); add("-"); add(" "); add("- -");
+      // same length, two adjacent characters changed so that a linear character hash (k = m*k + c) is unchanged: c1 + d, c2 - m*d for the
+      // usual multipliers; and adjacent transpositions (same multiset of characters)
+      for (int i = 0; i + 1 < L; i++) {
+        { std::string t2 = n; std::swap(t2[i], t2[i + 1]); if (t2 != n) add(t2); }
+        for (int m : {1, 2, 31, 33, 37, 131}) for (int d1 : {-3, -2, -1, 1, 2, 3}) {
+          int c1 = (unsigned char)n[i] + d1, c2 = (unsigned char)n[i + 1] - m * d1;
+          auto okc = [](int c) { return c > 32 && c < 127 && c != '-' && !(c >= 'A' && c <= 'Z'); };
+          if (!okc(c1) || !okc(c2)) continue;
+          std::string t2 = n; t2[i] = (char)c1; t2[i + 1] = (char)c2; add(t2);
+        }
+      }
       // bytes that are neither letters nor separators, NUL included (std::string carries it; the C wrappers cannot): in front, inside, behind
       for (char c : {'\0', '\t', '\n', '\r', '\x7f', '\xe9', '.', '/'}) {
         for (int i : {0, L / 2, L}) { std::string s = n; s.insert(i, 1, c); add(s); }
@@ -188,9 +199,13 @@ static int mode_c15(const Caps& D, int tier) {
         const ApiEntry& e = API_TABLE[k]; std::string key = std::string(e.name) + "/" + e.sig;
         if (D.D.at(sol).count(key)) continue;  // provided: not a C15 case
         st++;
-        double vals_d[4]; LD vals_l[4]; std::string outs[4]; int ntup = tier ? 4 : 2;
+        // overloads with an integer argument (direction index, moment order) run over an integer alphabet of both signs and parities
+        static const int IALPHA[] = {-2, -1, 0, 3, -4, 7, -7, 1000001, -2147483647 - 1};
+        bool has_int = strchr(e.sig, 'I') != 0;
+        double vals_d[16]; LD vals_l[16]; std::string outs[16]; int ntup = (tier ? 4 : 2) + (has_int ? (int)(sizeof IALPHA / sizeof IALPHA[0]) : 0);
         for (int t = 0; t < ntup; t++) {
-          ApiArgs A = args_tuple(t & 1); if (t >= 2) { for (int q = 0; q < 4; q++) A.s[q] = -A.s[q] * 3; A.i = t == 2 ? 0 : 7; }
+          ApiArgs A = args_tuple(t & 1); if (t >= 2 && t < (tier ? 4 : 2)) { for (int q = 0; q < 4; q++) A.s[q] = -A.s[q] * 3; A.i = t == 2 ? 0 : 7; }
+          if (t >= (tier ? 4 : 2)) A.i = IALPHA[t - (tier ? 4 : 2)];
           outs[t] = capture([&] { vals_d[t] = e.cd(A); }); std::string o2 = capture([&] { vals_l[t] = e.cl(A); }); tr += 2;
           bool okd = vals_d[t] == (double)-1.33, okl = vals_l[t] == (LD)-1.33;
           bool msgd = outs[t].find("MASA ERROR") != std::string::npos, msgl = o2.find("MASA ERROR") != std::string::npos;  // also matches "SMASA ERROR"
@@ -227,7 +242,7 @@ static int mode_c14(const Caps& D, const Caps& P) {
       // the complete observation (name, dimension, sanity, every parameter and vector, every documented evaluator, init_param)
       // is compared bit for bit with the one of context 0 (empty registry)
       std::string obs0;
-      for (int ctx = 0; ctx < (fixture ? 1 : 7); ctx++) {
+      for (int ctx = 0; ctx < (fixture ? 1 : 9); ctx++) {
         fflush(OUT);
         int pfd[2]; if (pipe(pfd)) { perror("pipe"); exit(2); }
         pid_t pid = fork();
@@ -247,7 +262,12 @@ static int mode_c14(const Caps& D, const Caps& P) {
                 case 5: masa_init<S>("other", n); masa_purge_default_param<S>(); break;
                 case 6: masa_init<S>("h", n); dirty(); masa_init<S>("other", other); masa_select_mms<S>("h"); masa_init<S>("other", n); masa_select_mms<S>("h"); break;
               }
-              masa_init<S>("h", n); masa_get_name<S>(&nm); masa_get_dimension<S>(&dim); if (!fixture) san = masa_sanity_check<S>(); });
+              masa_init<S>("h", n);
+              // contexts 7, 8: activity on OTHER instances after the initialisation and before the inspection -- the self-test fixture (whose
+              // init_param fails by design) in the other registry (7) resp. on another handle of this registry followed by select(h) (8)
+              if (ctx == 7) { if (sizeof(S) == sizeof(double)) { masa_init<LD>("fx", "masa_test_function"); masa_init_param<LD>(); } else { masa_init<double>("fx", "masa_test_function"); masa_init_param<double>(); } }
+              if (ctx == 8) { masa_init<S>("fx", "masa_test_function"); masa_init_param<S>(); masa_select_mms<S>("h"); }
+              masa_get_name<S>(&nm); masa_get_dimension<S>(&dim); if (!fixture) san = masa_sanity_check<S>(); });
             tr += ctx ? 4 : 0;
             obs = nm + ";" + std::to_string(dim) + ";" + std::to_string(san) + ";";
             { std::string o = capture([] { masa_display_param<S>(); }); std::istringstream ps(o); std::string line; while (std::getline(ps, line)) { size_t q = line.find(" is set to:"); if (q != std::string::npos) { S v = masa_get_param<S>(line.substr(0, q)); obs += line.substr(0, q) + "="; char hb[64]; snprintf(hb, sizeof hb, "%La,", (LD)v); obs += hb; } } }
